@@ -16,7 +16,7 @@ CONFIG = {
                   "the unwinder carried into frame k (C05_frame_select), and on a sound chain it succeeds for every existing frame and the CFI is sound "
                   "for the rest of the stack from those registers, with the stack pointer of activation k (C05_frame_select_chain, C05_frame_select_sp); "
                   "frame_info() of the selected frame k reports number k, the real CFA of frame k and the pc of its caller's frame (C05_frame_info). "
-                  "These full statements were FALSE of the code before the repairs 0988b41, d49f39a, 103fb44, 29add38 (see known_findings.txt, `fixed:` "
+                  "These full statements were FALSE of the code before the repairs 8bfa5c4, 25b89ab, cff3de5, 9f4a066 (see known_findings.txt, `fixed:` "
                   "lines); their witnesses stay in corpus/C05 and are replayed on the real debugger on every run. "
                   "The model is tied to the real Debugger on every run: at seeded stops (breakpoints after 0..300 continues, single steps through "
                   "prologues/epilogues/calls) of four debuggees (recursion to depth 300, mutual recursion, closures, trait objects, std iterator/sort "
